@@ -121,6 +121,7 @@ class VarintBytes(Abstract):
 
 
 def register(R, tier="quick"):
+    register_delta(R)
     R.contract(V + ":_varint", props=["C20"], setup=lambda I: {"i": z3.Int("i")},
                externals={"array.array": lambda I, args, kw, node: ByteSink(I)},
                requires=["i >= 0"],
@@ -164,3 +165,57 @@ def register(R, tier="quick"):
         return [("decode(encode(i)) == i", dec == i), ("encode(i) >= 0", enc >= 0)]
     R.lemma("varints/zigzag-inverse", ["C20"], zz_lemma,
             note="from the ensures of signed_varint and decode_signed_varint: decode_signed(zigzag(i)) == i for all ints")
+
+
+def register_delta(R):
+    """C10 / C20 — delta coding of ascending document numbers inside a posting block (whoosh.util.numlists, used by
+    W3PostingsWriter / W3LeafMatcher): encode yields x[k] - x[k-1] (x[-1] = 0), one number per input; decode, given the
+    encoding of ANY list X, yields X back - the round trip is the loop invariant `base == X[k-1]` of the decoder itself."""
+    from pyvc.values import SymList, SpecFn
+    NL = "whoosh.util.numlists"
+    IntS = z3.IntSort()
+
+    def mk(I):
+        n = z3.Int(I.fresh_name("nnums"))
+        I.assume(n >= 0)
+        return {"nums": SymList(z3.Array(I.fresh_name("nums"), IntS, IntS), n, "list")}
+
+    def prev(arr, k):
+        return z3.If(k > 0, z3.Select(arr, k - 1), 0)
+
+    def enc_good(I, y, k):
+        a = I.root_frame.env["nums"].arr
+        k = to_z3(k)
+        return to_z3(y) == z3.Select(a, k) - prev(a, k)
+
+    R.contract(NL + ":delta_encode", props=["C10", "C20"], setup=mk,
+               spec_funcs={"good_yield": SpecFn("good_yield", enc_good)},
+               ghost="ok = True\nny = 0\n", on_yield="ok = ok and good_yield(_y, _k)\nny = ny + 1\n",
+               ensures=["ok", "ny == len(nums)"],
+               loops={0: LoopSpec(index="_k", inv=["ok", "ny == _k", "_k <= len(nums)",
+                                                   lambda I, env: to_z3(env["base"]) == prev(env["nums"].arr, to_z3(env["_k"]))],
+                                  havoc=["ok", "ny"])},
+               canaries=[Canary("base-not-updated", "base = n", "pass"),
+                         Canary("absolute-values", "n - base", "n")],
+               note="the k-th number yielded is x[k] - x[k-1] (x[-1] = 0), one per input")
+
+    X = z3.Array("delta_X", IntS, IntS)
+
+    def is_encoding(I, env):
+        k = z3.Int("dk")
+        a = env["nums"].arr
+        return z3.ForAll([k], z3.Implies(z3.And(0 <= k, k < env["nums"].n), z3.Select(a, k) == z3.Select(X, k) - prev(X, k)))
+
+    def dec_good(I, y, k):
+        return to_z3(y) == z3.Select(X, to_z3(k))
+
+    R.contract(NL + ":delta_decode", props=["C10", "C20"], setup=mk,
+               requires=[is_encoding],
+               spec_funcs={"good_yield": SpecFn("good_yield", dec_good)},
+               ghost="ok = True\nny = 0\n", on_yield="ok = ok and good_yield(_y, _k)\nny = ny + 1\n",
+               ensures=["ok", "ny == len(nums)"],
+               loops={0: LoopSpec(index="_k", inv=["ok", "ny == _k", "_k <= len(nums)",
+                                                   lambda I, env: to_z3(env["base"]) == prev(X, to_z3(env["_k"]))],
+                                  havoc=["ok", "ny"])},
+               canaries=[Canary("no-accumulation", "base += n", "base = n")],
+               note="decoding the delta encoding of any list X yields X (round trip, for lists of any length)")
